@@ -2127,6 +2127,13 @@ class ExpressionEvaluator(Parser):
                 condition = expr
                 false_result = rhs
                 expr = true_result if condition else false_result
+                # The result has the common type of the second and third
+                # operands.
+                if isinstance(true_result, np.uint64) or isinstance(
+                    false_result,
+                    np.uint64,
+                ):
+                    expr = np.uint64(int(expr) & 0xFFFFFFFFFFFFFFFF)
             else:
                 expr = self.__apply_binary_op(operator.token, expr, rhs)
 
@@ -2152,18 +2159,33 @@ class ExpressionEvaluator(Parser):
             return exprs
 
     @staticmethod
+    def __wrap(value, unsigned):
+        """
+        Return a Python integer as a 64-bit C value (intmax_t or uintmax_t),
+        wrapping modulo 2**64.
+        """
+        value &= 0xFFFFFFFFFFFFFFFF
+        if unsigned:
+            return np.uint64(value)
+        if value >= 0x8000000000000000:
+            value -= 0x10000000000000000
+        return np.int64(value)
+
+    @staticmethod
     def __apply_unary_op(op, operand):
         """
         Apply the specified unary operator: op operand
         """
+        unsigned = isinstance(operand, np.uint64)
+        wrap = ExpressionEvaluator.__wrap
         if op == "-":
-            return -operand
+            return wrap(-int(operand), unsigned)
         elif op == "+":
-            return +operand
+            return wrap(int(operand), unsigned)
         elif op == "!":
-            return not operand
+            return np.int64(int(operand) == 0)
         elif op == "~":
-            return ~operand
+            return wrap(~int(operand), unsigned)
         else:
             raise ValueError("Not a valid unary operator.")
 
@@ -2171,43 +2193,71 @@ class ExpressionEvaluator(Parser):
     def __apply_binary_op(op, lhs, rhs):
         """
         Apply the specified binary operator: lhs op rhs
+
+        Operands are 64-bit C integers. If either operand is unsigned the
+        other is converted to unsigned (the usual arithmetic conversions),
+        except for shifts, whose result has the type of the left operand.
         """
+        wrap = ExpressionEvaluator.__wrap
+        lhs_unsigned = isinstance(lhs, np.uint64)
+        rhs_unsigned = isinstance(rhs, np.uint64)
+        unsigned = lhs_unsigned or rhs_unsigned
+
         if op == "||":
-            return lhs or rhs
+            return np.int64(int(lhs) != 0 or int(rhs) != 0)
         elif op == "&&":
-            return lhs and rhs
-        elif op == "|":
-            return lhs | rhs
-        elif op == "^":
-            return lhs ^ rhs
-        elif op == "&":
-            return lhs & rhs
-        elif op == "==":
-            return lhs == rhs
-        elif op == "!=":
-            return lhs != rhs
-        elif op == "<":
-            return lhs < rhs
-        elif op == "<=":
-            return lhs <= rhs
-        elif op == ">":
-            return lhs > rhs
-        elif op == ">=":
-            return lhs >= rhs
+            return np.int64(int(lhs) != 0 and int(rhs) != 0)
         elif op == "<<":
-            return lhs << rhs
+            count = int(rhs)
+            if not 0 <= count < 64:
+                return wrap(0, lhs_unsigned)
+            return wrap(int(lhs) << count, lhs_unsigned)
         elif op == ">>":
-            return lhs >> rhs
+            count = int(rhs)
+            if not 0 <= count < 64:
+                return wrap(0, lhs_unsigned)
+            return wrap(int(lhs) >> count, lhs_unsigned)
+
+        # Convert both operands to the common type.
+        a = int(wrap(int(lhs), unsigned))
+        b = int(wrap(int(rhs), unsigned))
+
+        if op == "|":
+            return wrap(a | b, unsigned)
+        elif op == "^":
+            return wrap(a ^ b, unsigned)
+        elif op == "&":
+            return wrap(a & b, unsigned)
+        elif op == "==":
+            return np.int64(a == b)
+        elif op == "!=":
+            return np.int64(a != b)
+        elif op == "<":
+            return np.int64(a < b)
+        elif op == "<=":
+            return np.int64(a <= b)
+        elif op == ">":
+            return np.int64(a > b)
+        elif op == ">=":
+            return np.int64(a >= b)
         elif op == "+":
-            return lhs + rhs
+            return wrap(a + b, unsigned)
         elif op == "-":
-            return lhs - rhs
+            return wrap(a - b, unsigned)
         elif op == "*":
-            return lhs * rhs
-        elif op == "/":
-            return lhs // rhs  # force integer division
-        elif op == "%":
-            return lhs % rhs
+            return wrap(a * b, unsigned)
+        elif op == "/" or op == "%":
+            # Division by zero is undefined; it must not abort the analysis
+            # when it appears in an operand that C would not evaluate.
+            if b == 0:
+                return wrap(0, unsigned)
+            # C division truncates toward zero.
+            quotient = abs(a) // abs(b)
+            if (a < 0) != (b < 0):
+                quotient = -quotient
+            if op == "/":
+                return wrap(quotient, unsigned)
+            return wrap(a - quotient * b, unsigned)
         else:
             raise ValueError("Not a binary operator.")
 
